@@ -70,6 +70,7 @@ void verif_swap(var a, var b) { struct Elem t = *(struct Elem*)a; *(struct Elem*
 #define OP_POP_EMPTY 15
 #define OP_REM_ABSENT 16
 #define OP_INIT 17
+#define OP_MARK 18
 
 static int64_t R[LMAX]; static size_t rn;        /* reference sequence */
 static struct Elem* item(struct Array* a, size_t i) { return Array_Item(a, i); }
@@ -125,6 +126,8 @@ static struct Array* arbitrary_array(uint64_t n, uint64_t slots, const int64_t* 
   return a;
 }
 
+static var mark_seen[LMAX]; static int mark_n = 0; static var mark_gc;
+static void mark_rec(var gc, void* p) { V_ASSERT(gc == mark_gc, "the collector handle is passed through"); if (mark_n < LMAX) mark_seen[mark_n] = p; mark_n++; }
 static var expect_throw = NULL; static struct Array* snap_a; static struct Array snap_struct; static uint64_t snap_words[LMAX * 5]; static int snap_live;
 static void snapshot(struct Array* a) {
   snap_a = a; snap_struct = *a; snap_live = elem_live_count();
@@ -270,6 +273,13 @@ V_HARNESS {
     V_ASSERT(valid(a) && agrees(a), "assign: target holds the source's sequence");
     V_ASSERT(b->nitems == om && owns(a, b) && elem_ledger_ok, "assign: old elements finalised once, copies are new, source untouched (deep copy, C05)");
     V_ASSERT(a->nitems == 0 || a->data != b->data, "assign: storage is not shared"); }
+#elif OP == OP_MARK
+  { static uint64_t gcobj[2]; mark_gc = &gcobj[1];
+    Array_Mark(a, mark_gc, mark_rec);
+    V_WITNESS("mark done");
+    _Bool ok = mark_n == (int)n;
+    for (size_t i = 0; i < L; i++) if (i < n && mark_seen[i] != (var)item(a, i)) ok = 0;
+    V_ASSERT(ok, "every element of the Array is handed to the collector exactly once (C01)"); }
 #elif OP == OP_DEL
   Array_Del(a);
   V_WITNESS("del done");
